@@ -25,6 +25,19 @@ package main
 //   - a watcher goroutine that was just started is awaited until it is parked in its select
 //     (observed through runtime.Stack), so that the branch it takes is decided by which channel is
 //     closed first and not by the scheduler.
+//
+// Gated listeners (`on <s> <event> gate <g> ok|err`): the listener logs its invocation, then blocks
+// until the harness gives it its turn (`release <g>`), then returns nil or an error.  While it blocks,
+// the closing goroutine is parked inside the real Trigger (holding the read lock of that event
+// scope) and the harness goes on issuing operations.  After every operation the harness waits until
+// every closing goroutine is quiescent: returned, parked in a gated listener, or sitting in wg.Wait()
+// with something outstanding according to the harness's books.  `release <g>` opens the gate for good
+// and gives the goroutines parked on it their turn one after the other, lowest scope first, each
+// followed by everything it causes (the same order as the model driver).  What must NOT have
+// happened yet — a waiting Close has returned, or has fired a commit/rollback event — is only
+// SAMPLED (before every operation; before a release that lets a child finish the sample is preceded by
+// a 1 ms pause so that an implementation that woke the parent too early has had time to show it): a
+// sample can miss, it can never report something that did not happen.
 
 import (
 	"errors"
@@ -98,6 +111,15 @@ type node struct {
 	returned bool
 	hung     bool
 	call     *closeCall // the adopted Close call
+	// progress of the closing goroutine (written by it under H.mu)
+	parked     *parkInfo // it is inside a gated listener, waiting for its turn
+	beforeDone bool      // the BeforeClose trigger has ended (and its error has been handed to appendError)
+	beginWant  int       // len(Errors()) that must be reached after a failing BeforeClose trigger
+	picked     bool      // its own BeforeCommit/BeforeRollback trigger has been called: Wait() has returned
+	nTrig      int       // close events it has fired (own Trigger calls)
+	afterDone  bool      // its own AfterClose trigger has ended
+	earlyNoted bool      // "fired the triple while something was outstanding" has been reported
+	counted    bool      // it signed on before the parent's wait ended: the parent's books count it
 	// oracle observations
 	seq        []string // close events of this scope seen by the first root probe
 	errsAtPick int      // len(Errors()) when BeforeCommit/BeforeRollback reached the probe, -1 = not yet
@@ -119,7 +141,17 @@ type entry struct {
 	src int // -1: data was not a scope
 }
 
-type beginSig struct{ want int }
+// parkInfo: a closing goroutine inside a gated listener
+type parkInfo struct {
+	lid, gate int
+	owner     *node // the scope the listener was registered on (its event scope's read lock is held)
+	turn      chan struct{}
+}
+
+type gate struct {
+	open    bool
+	waiters []*node
+}
 
 type H struct {
 	mu        sync.Mutex
@@ -128,6 +160,8 @@ type H struct {
 	isoCtxs   []*cnode
 	log       []entry
 	nListen   int
+	gates     map[int]*gate
+	allOpen   bool // end of the history: every gate is open
 	closes    []string // "<id>=<0|1>" in return order
 	anomalies []string
 	timeouts  int
@@ -139,7 +173,19 @@ type H struct {
 	kf1    int // Close calls that returned while a child that never signed on was open (KF-C11-1)
 }
 
-func newH() *H { return &H{byScope: map[app.Scope]*node{}, probe: map[int]bool{}} }
+func newH() *H {
+	return &H{byScope: map[app.Scope]*node{}, probe: map[int]bool{}, gates: map[int]*gate{}}
+}
+
+// gateOf returns gate g (call with H.mu held).
+func (h *H) gateOf(g int) *gate {
+	x := h.gates[g]
+	if x == nil {
+		x = &gate{open: h.allOpen}
+		h.gates[g] = x
+	}
+	return x
+}
 
 // baseTimeout is how long "what must happen" is awaited: 10 s, or SCOPE_TIMEOUT_MS (used by the check
 // only while minimising a history that already failed under the generous timeout).
@@ -257,11 +303,23 @@ type esWrap struct {
 	inner        app.EventScope
 	h            *H
 	n            *node
-	begun        chan beginSig
 	pendingBegin bool
 }
 
 func (w *esWrap) On(id interface{}, cb app.EventCallback) { w.inner.On(id, cb) }
+
+func isCloseEvent(id interface{}) bool {
+	v, ok := id.(int)
+	if !ok {
+		return false
+	}
+	for i, x := range evIDs {
+		if x == v {
+			return i >= 3
+		}
+	}
+	return false
+}
 
 func (w *esWrap) Trigger(id interface{}, data interface{}) error {
 	h := w.h
@@ -270,13 +328,21 @@ func (w *esWrap) Trigger(id interface{}, data interface{}) error {
 	if sc, ok := data.(app.Scope); ok && w.n.scp != nil && sc == w.n.scp {
 		own = true
 	}
+	if own && isCloseEvent(id) {
+		h.mu.Lock()
+		w.n.nTrig++
+		if id == app.BeforeCommitEvent || id == app.BeforeRollbackEvent {
+			w.n.picked = true
+		}
+		h.mu.Unlock()
+	}
 	if own && (id == app.BeforeCommitEvent || id == app.BeforeRollbackEvent) {
 		h.awaitKids(w.n)
 	}
 	err := w.inner.Trigger(id, data)
 	if own && id == app.BeforeCloseEvent {
 		if err == nil {
-			w.signalBegun(0)
+			w.markBefore(0)
 		} else {
 			w.pendingBegin = true // Scope.appendError follows: append, ErrorEvent, append
 		}
@@ -286,39 +352,56 @@ func (w *esWrap) Trigger(id interface{}, data interface{}) error {
 		if err != nil {
 			want = len(w.n.scp.Errors()) + 1
 		}
-		w.signalBegun(want)
+		w.markBefore(want)
+	}
+	if own && id == app.AfterCloseEvent {
+		h.mu.Lock()
+		w.n.afterDone = true
+		h.mu.Unlock()
 	}
 	return err
 }
 
-func (w *esWrap) signalBegun(want int) {
-	h := w.h
-	h.mu.Lock()
-	ch := w.begun
-	w.begun = nil
-	h.mu.Unlock()
-	if ch != nil {
-		ch <- beginSig{want}
-	}
+func (w *esWrap) markBefore(want int) {
+	w.h.mu.Lock()
+	w.n.beginWant = want
+	w.n.beforeDone = true
+	w.h.mu.Unlock()
 }
 
 // awaitKids: the commit/rollback triple of n starts; its signed-on children have called
-// parent.DoneTask() and are returning from Close — wait until they have.
+// parent.DoneTask() and are returning from Close — wait until they have.  A child that is still
+// open, or is inside one of its listeners, contradicts the property: reported, not waited for.
 func (h *H) awaitKids(n *node) {
 	h.mu.Lock()
 	kids := append([]*node{}, n.kids...)
 	h.mu.Unlock()
 	for _, k := range kids {
 		h.mu.Lock()
-		call, reg := k.call, k.registered
+		call, reg := k.call, k.registered && k.counted
 		h.mu.Unlock()
-		if !reg || call == nil {
+		if !reg {
 			continue
 		}
-		select {
-		case <-call.ret:
-		case <-time.After(h.timeout()):
-			h.timeouts++
+		if call == nil {
+			h.anomaly(fmt.Sprintf("triple-while-child-open:%d<%d", n.id, k.id))
+			continue
+		}
+		parked := false
+		ok := h.waitFor(func() bool {
+			select {
+			case <-call.ret:
+				return true
+			default:
+			}
+			h.mu.Lock()
+			parked = k.parked != nil
+			h.mu.Unlock()
+			return parked
+		})
+		if parked {
+			h.anomaly(fmt.Sprintf("triple-while-child-in-listener:%d<%d", n.id, k.id))
+		} else if !ok {
 			h.anomaly(fmt.Sprintf("child-not-returned:%d<%d", n.id, k.id))
 		}
 	}
@@ -326,7 +409,7 @@ func (h *H) awaitKids(n *node) {
 
 // ---------------------------------------------------------------- listeners
 
-func (h *H) listener(lid int, evName string, fails bool) app.EventCallback {
+func (h *H) listener(lid int, evName string, fails bool, gateID int, owner *node) app.EventCallback {
 	return func(data interface{}) error {
 		src := -1
 		var sn *node
@@ -342,7 +425,23 @@ func (h *H) listener(lid int, evName string, fails bool) app.EventCallback {
 		if isProbe && sn != nil {
 			h.probeSees(sn, evName)
 		}
+		if gateID >= 0 && sn != nil {
+			h.mu.Lock()
+			g := h.gateOf(gateID)
+			if g.open {
+				h.mu.Unlock()
+			} else {
+				pi := &parkInfo{lid: lid, gate: gateID, owner: owner, turn: make(chan struct{})}
+				sn.parked = pi
+				g.waiters = append(g.waiters, sn)
+				h.mu.Unlock()
+				<-pi.turn
+			}
+		}
 		if fails {
+			if h.oracle && sn != nil && evIndex(evName) >= 3 {
+				h.oracleListenerFailed(sn)
+			}
 			return errors.New("listener " + strconv.Itoa(lid))
 		}
 		return nil
@@ -362,6 +461,7 @@ func (h *H) addNode(n *node) {
 	h.mu.Lock()
 	n.id = len(h.nodes)
 	n.errsAtPick = -1
+	n.counted = n.registered && n.parent != nil && !n.parent.picked
 	n.probed = (n.parent == nil && n.id == 0) || (n.parent != nil && n.parent.probed)
 	h.nodes = append(h.nodes, n)
 	h.byScope[n.scp] = n
@@ -399,7 +499,10 @@ func (h *H) opChild(pid int, iso bool) string {
 	if pan, _ := hx.Guard(func() { n.scp = scope.NewChild(p.scp, params) }); pan {
 		return "panic"
 	}
-	if n.registered {
+	h.mu.Lock()
+	late := p.picked // the parent's wait is over: its books are closed
+	h.mu.Unlock()
+	if n.registered && !late {
 		p.wgm++
 	}
 	h.addNode(n)
@@ -414,24 +517,44 @@ func (h *H) opChild(pid int, iso bool) string {
 	return "ok"
 }
 
-func (h *H) opOn(n *node, ev int, fails bool) string {
+func (h *H) opOn(n *node, ev int, fails bool, gateID int) string {
+	// On needs the write lock of the event scope; a running listener of that event scope holds the
+	// read lock: the call would wait for the release — it is not made
+	h.mu.Lock()
+	busy := false
+	for _, m := range h.nodes {
+		if m.parked != nil && m.parked.owner == n {
+			busy = true
+		}
+	}
+	h.mu.Unlock()
+	if n.scp.BaseEventScope() != nil && busy {
+		return "busy"
+	}
 	lid := h.nListen
-	if pan, _ := hx.Guard(func() { n.scp.On(evIDs[ev], h.listener(lid, evNames[ev], fails)) }); pan {
+	if pan, _ := hx.Guard(func() { n.scp.On(evIDs[ev], h.listener(lid, evNames[ev], fails, gateID, n)) }); pan {
 		return "panic"
 	}
 	h.nListen++
 	return "ok"
 }
 
+func (h *H) isParked(n *node) bool {
+	h.mu.Lock()
+	defer h.mu.Unlock()
+	return n.parked != nil
+}
+
 func (h *H) opClose(n *node) string {
-	w := n.scp.BaseEventScope()
-	begun := make(chan beginSig, 1)
-	if ww, ok := w.(*esWrap); ok {
+	h.mu.Lock()
+	second := n.started
+	h.mu.Unlock()
+	call := &closeCall{ret: make(chan struct{})}
+	if !second {
 		h.mu.Lock()
-		ww.begun = begun
+		n.call = call // before the goroutine starts: the parent's trigger wrapper waits for it
 		h.mu.Unlock()
 	}
-	call := &closeCall{ret: make(chan struct{})}
 	go func() {
 		var err error
 		call.res.panicked, _ = hx.Guard(func() { err = n.scp.Close() })
@@ -441,12 +564,30 @@ func (h *H) opClose(n *node) string {
 		}
 		close(call.ret)
 	}()
-	clearBegun := func() {
-		if ww, ok := w.(*esWrap); ok {
-			h.mu.Lock()
-			ww.begun = nil
-			h.mu.Unlock()
+	ready := func() bool {
+		select {
+		case <-call.ret:
+			return true
+		default:
+			return false
 		}
+	}
+	if second {
+		// the first call owns the scope's progress flags: this one must panic at once
+		if !h.waitFor(ready) {
+			h.anomaly("second-close-neither-panics-nor-returns:" + strconv.Itoa(n.id))
+			return "hang"
+		}
+		if call.res.panicked {
+			return "panic"
+		}
+		h.anomaly("second-close-returned:" + strconv.Itoa(n.id))
+		return "closed-again"
+	}
+	began := func() bool {
+		h.mu.Lock()
+		defer h.mu.Unlock()
+		return n.beforeDone || n.parked != nil
 	}
 	adopt := func() {
 		h.mu.Lock()
@@ -454,32 +595,18 @@ func (h *H) opClose(n *node) string {
 		n.call = call
 		h.mu.Unlock()
 	}
-	select {
-	case sig := <-begun:
-		adopt()
-		if sig.want > 0 {
-			if !h.waitFor(func() bool { return len(n.scp.Errors()) >= sig.want }) {
-				h.anomaly("begin-error-not-appended:" + strconv.Itoa(n.id))
-			}
-		}
-		return "begun"
-	case <-call.ret:
-		clearBegun()
-		if call.res.panicked {
-			return "panic"
-		}
-		if n.started { // a second Close returned normally
-			h.anomaly("second-close-returned:" + strconv.Itoa(n.id))
-			return "closed-again"
-		}
-		adopt() // returned without BeforeClose having been triggered
-		return "begun"
-	case <-time.After(h.timeout()):
-		h.timeouts++
-		clearBegun()
+	if !h.waitFor(func() bool { return ready() || began() }) {
 		h.anomaly("close-neither-begins-nor-returns:" + strconv.Itoa(n.id))
 		return "hang"
 	}
+	if ready() && call.res.panicked {
+		h.mu.Lock()
+		n.call = nil
+		h.mu.Unlock()
+		return "panic"
+	}
+	adopt() // begun, parked in a BeforeClose listener, or returned without BeforeClose having been triggered
+	return "begun"
 }
 
 // collect records a returned Close.
@@ -497,7 +624,7 @@ func (h *H) collect(n *node, early bool) {
 		b = 1
 	}
 	h.closes = append(h.closes, fmt.Sprintf("%d=%d", n.id, b))
-	if n.registered && n.parent != nil {
+	if n.counted && n.parent != nil {
 		n.parent.wgm--
 	}
 	if early {
@@ -517,31 +644,63 @@ func (h *H) resultReady(n *node) bool {
 	}
 }
 
-// sampleEarly: a Close that must still be waiting has returned?  (can miss, cannot false-alarm)
+// sampleEarly: a Close that must still be waiting has returned, or has fired a commit/rollback
+// event?  (can miss, cannot false-alarm)
 func (h *H) sampleEarly() {
 	for _, n := range h.nodes {
-		if n.started && !n.returned && !n.hung && n.wgm > 0 && h.resultReady(n) {
+		if !n.started || n.returned || n.hung || n.wgm <= 0 {
+			continue
+		}
+		if h.resultReady(n) {
 			h.collect(n, true)
+			continue
+		}
+		h.mu.Lock()
+		note := n.picked && !n.earlyNoted
+		if note {
+			n.earlyNoted = true
+		}
+		h.mu.Unlock()
+		if note {
+			h.anomaly("triple-fired-early:" + strconv.Itoa(n.id))
 		}
 	}
 }
 
-// settle waits for everything that must happen after an operation.
+// blockedInWait: by the harness's books the goroutine sits in wg.Wait() and something is outstanding
+func (h *H) blockedInWait(n *node) bool {
+	h.mu.Lock()
+	ok := n.beforeDone && !n.picked && n.parked == nil && n.wgm > 0
+	want := n.beginWant
+	h.mu.Unlock()
+	return ok && len(n.scp.Errors()) >= want
+}
+
+// settle waits for everything that must happen after an operation: every closing goroutine ends up
+// returned, parked in a gated listener, or waiting for something outstanding.
 func (h *H) settle() {
 	for {
 		h.settleProp()
 		progressed := false
-		for _, n := range h.nodes {
-			if n.started && !n.returned && !n.hung && n.wgm <= 0 {
-				select {
-				case <-n.call.ret:
-					h.collect(n, false)
-					progressed = true
-				case <-time.After(h.timeout()):
-					h.timeouts++
-					n.hung = true
-					h.anomaly("close-hangs:" + strconv.Itoa(n.id))
-				}
+		// deepest first: a child is collected (and taken off its parent's books) before the parent is looked at
+		for i := len(h.nodes) - 1; i >= 0; i-- {
+			n := h.nodes[i]
+			if !n.started || n.returned || n.hung {
+				continue
+			}
+			if h.isParked(n) || h.blockedInWait(n) {
+				continue
+			}
+			ok := h.waitFor(func() bool { return h.resultReady(n) || h.isParked(n) || h.blockedInWait(n) })
+			switch {
+			case h.resultReady(n):
+				h.collect(n, n.wgm > 0)
+				progressed = true
+			case ok:
+				// parked, or waiting again: nothing else is enabled by that
+			default:
+				n.hung = true
+				h.anomaly("close-hangs:" + strconv.Itoa(n.id))
 			}
 		}
 		if !progressed {
@@ -549,6 +708,55 @@ func (h *H) settle() {
 		}
 	}
 	h.sampleEarly()
+}
+
+// opRelease opens gate g for good and gives the goroutines parked on it their turn, lowest scope first,
+// each followed by everything it causes.
+func (h *H) opRelease(g int) string {
+	h.mu.Lock()
+	gt := h.gateOf(g)
+	gt.open = true
+	ws := gt.waiters
+	gt.waiters = nil
+	h.mu.Unlock()
+	for i := 0; i < len(ws); i++ { // ascending scope id
+		for j := i + 1; j < len(ws); j++ {
+			if ws[j].id < ws[i].id {
+				ws[i], ws[j] = ws[j], ws[i]
+			}
+		}
+	}
+	for _, w := range ws {
+		h.mu.Lock()
+		pi := w.parked
+		w.parked = nil
+		h.mu.Unlock()
+		if pi != nil {
+			close(pi.turn)
+		}
+		h.settle()
+	}
+	return "ok"
+}
+
+// graceBeforeRelease: the release lets a child go on whose parent is (by the books) still waiting for
+// it.  An implementation that woke the parent too early gets a moment to show it before the sample.
+func (h *H) graceBeforeRelease(g int) {
+	h.mu.Lock()
+	adversarial := false
+	if gt := h.gates[g]; gt != nil && !gt.open {
+		for _, w := range gt.waiters {
+			for p := w.parent; p != nil; p = p.parent {
+				if p.started && !p.returned && p.wgm > 0 {
+					adversarial = true
+				}
+			}
+		}
+	}
+	h.mu.Unlock()
+	if adversarial {
+		time.Sleep(time.Millisecond)
+	}
 }
 
 func (h *H) cleanupWait() time.Duration {
@@ -560,6 +768,19 @@ func (h *H) cleanupWait() time.Duration {
 
 // cleanup ends a history: releases blocked Close calls and lets the watchers exit.
 func (h *H) cleanup() {
+	h.mu.Lock()
+	h.allOpen = true
+	for _, gt := range h.gates {
+		gt.open = true
+		for _, w := range gt.waiters {
+			if w.parked != nil {
+				close(w.parked.turn)
+				w.parked = nil
+			}
+		}
+		gt.waiters = nil
+	}
+	h.mu.Unlock()
 	for i := len(h.nodes) - 1; i >= 0; i-- {
 		n := h.nodes[i]
 		if n.started && !n.returned && !n.hung {
@@ -597,6 +818,30 @@ func (h *H) stateString() string {
 	return strings.Join(parts, ",")
 }
 
+// parkedString: the closing goroutines inside a gated listener, <scope>@<listener>
+func (h *H) parkedString() string {
+	h.mu.Lock()
+	defer h.mu.Unlock()
+	var parts []string
+	for _, n := range h.nodes {
+		if n.parked != nil {
+			parts = append(parts, fmt.Sprintf("%d@%d", n.id, n.parked.lid))
+		}
+	}
+	return strings.Join(parts, ",")
+}
+
+// firedString: per scope the number of close events it has fired
+func (h *H) firedString() string {
+	h.mu.Lock()
+	defer h.mu.Unlock()
+	parts := make([]string, len(h.nodes))
+	for i, n := range h.nodes {
+		parts[i] = strconv.Itoa(n.nTrig)
+	}
+	return strings.Join(parts, ",")
+}
+
 func showEntries(es []entry) string {
 	parts := make([]string, len(es))
 	for i, e := range es {
@@ -619,6 +864,9 @@ func (h *H) Exec(line string) string {
 		}
 		return v
 	}
+	if f[0] == "release" && len(f) == 2 && atoi(f[1]) >= 0 {
+		h.graceBeforeRelease(atoi(f[1]))
+	}
 	h.sampleEarly()
 	h.mu.Lock()
 	log0, closes0, anom0 := len(h.log), len(h.closes), len(h.anomalies)
@@ -634,8 +882,16 @@ func (h *H) Exec(line string) string {
 		if n := h.get(atoi(f[1])); n == nil {
 			res = "invalid"
 		} else {
-			res = h.opOn(n, evIndex(f[2]), f[3] == "err")
+			res = h.opOn(n, evIndex(f[2]), f[3] == "err", -1)
 		}
+	case f[0] == "on" && len(f) == 6 && f[3] == "gate" && evIndex(f[2]) >= 0 && atoi(f[4]) >= 0 && (f[5] == "ok" || f[5] == "err"):
+		if n := h.get(atoi(f[1])); n == nil || evIndex(f[2]) < 3 {
+			res = "invalid"
+		} else {
+			res = h.opOn(n, evIndex(f[2]), f[5] == "err", atoi(f[4]))
+		}
+	case f[0] == "release" && len(f) == 2 && atoi(f[1]) >= 0:
+		res = h.opRelease(atoi(f[1]))
 	case f[0] == "addtasks" && len(f) == 3 && atoi(f[2]) >= 0:
 		if n := h.get(atoi(f[1])); n == nil {
 			res = "invalid"
@@ -647,7 +903,12 @@ func (h *H) Exec(line string) string {
 			} else if err != nil {
 				res = "refused"
 			} else {
-				n.wgm += k
+				h.mu.Lock()
+				late := n.picked // the wait is over: the books are closed
+				h.mu.Unlock()
+				if !late {
+					n.wgm += k
+				}
 				n.outstanding += k
 				res = "ok"
 			}
@@ -659,7 +920,12 @@ func (h *H) Exec(line string) string {
 			res = "undisciplined"
 		} else {
 			// the books are updated first: DoneTask may release a Close goroutine whose probe reads them
-			n.wgm--
+			h.mu.Lock()
+			late := n.picked
+			h.mu.Unlock()
+			if !late {
+				n.wgm--
+			}
 			n.outstanding--
 			if pan, _ := hx.Guard(func() { n.scp.DoneTask() }); pan {
 				res = "panic"
@@ -713,10 +979,11 @@ func (h *H) Exec(line string) string {
 		}
 	case f[0] == "settle" && len(f) == 1:
 		h.settle()
+		st, pk, fd := h.stateString(), h.parkedString(), h.firedString()
 		h.mu.Lock()
 		defer h.mu.Unlock()
-		return fmt.Sprintf("ok E[%s] C[%s] S[%s]%s", showEntries(h.log), strings.Join(h.closes, ","),
-			h.stateString(), anomalyTail(h.anomalies[anom0:]))
+		return fmt.Sprintf("ok E[%s] C[%s] S[%s] G[%s] T[%s]%s", showEntries(h.log), strings.Join(h.closes, ","),
+			st, pk, fd, anomalyTail(h.anomalies[anom0:]))
 	}
 	h.settle()
 	if res == "begun" {
@@ -726,10 +993,11 @@ func (h *H) Exec(line string) string {
 			res = "blocked"
 		}
 	}
+	st, pk, fd := h.stateString(), h.parkedString(), h.firedString()
 	h.mu.Lock()
 	defer h.mu.Unlock()
-	return fmt.Sprintf("%s E[%s] C[%s] S[%s]%s", res, showEntries(h.log[log0:]),
-		strings.Join(h.closes[closes0:], ","), h.stateString(), anomalyTail(h.anomalies[anom0:]))
+	return fmt.Sprintf("%s E[%s] C[%s] S[%s] G[%s] T[%s]%s", res, showEntries(h.log[log0:]),
+		strings.Join(h.closes[closes0:], ","), st, pk, fd, anomalyTail(h.anomalies[anom0:]))
 }
 
 func anomalyTail(a []string) string {
